@@ -56,7 +56,9 @@ def rebuild(case, sync=None, res_line=None):
         if name == "Song" and res_line is not None:
             body = [res_line if ln.strip().startswith("Resolution =") else ln for ln in body]
         secs.append((name, body))
-    return gen.render_sections(secs)
+    text = gen.render_sections(secs)
+    # a third of the renderings end at the last brace, without a line terminator (a function of the text, so replays agree)
+    return text[:-1] if len(text) % 3 == 0 else text
 
 
 def faults(case):
